@@ -8,7 +8,9 @@ KINDS = @@KINDS@@        # command kinds available in this shard
 FIRST = @@FIRST@@        # indexes (into KINDS) fixed for the first commands of the sequence (shard constant prefix)
 N = @@N@@                # sequence length
 SYMFLAGS = @@SYMFLAGS@@  # symbolic include_undocumented_* flags (C08.b)
-hc.shim_re("real")
+FREE = @@FREE@@          # free regex shim with three distinct strip patterns (C03.c): re.sub(p, "", s) is the opaque term <p|s>
+_shim = hc.shim_re("free" if FREE else "real")
+PATS = {"function": "PF", "macro": "PM", "member": "PX"}
 hc.quiet_logging()
 ARGS = {
     "function": ["f", "a", "b"], "macro": ["g", "a"], "endfunction": [], "endmacro": [], "cmake_parse_arguments": ["x", "y"],
@@ -88,6 +90,12 @@ def check(ks: $$KT$$, docs: $$DT$$, flags: List[bool], lines: $$KT$$) -> bool:
             fl[delta.FLAG_KINDS[i]] = flags[i]
             setattr(settings.input, "include_undocumented_" + delta.FLAG_KINDS[i], flags[i])
         # with flags off, a member/test declaration may be hidden and its definition then is an ordinary one: delta models that
+    strip = delta.no_strip
+    if FREE:
+        settings.input.function_parameter_name_strip_regex = PATS["function"]
+        settings.input.macro_parameter_name_strip_regex = PATS["macro"]
+        settings.input.member_parameter_name_strip_regex = PATS["member"]
+        strip = lambda which, s: "<" + PATS[which] + "|" + s + ">"
     cmds = []
     for i in range(N):
         k = KINDS[ks[i]]
@@ -99,5 +107,5 @@ def check(ks: $$KT$$, docs: $$DT$$, flags: List[bool], lines: $$KT$$) -> bool:
         got = prog.real_page(cmds, settings, lines=list(lines))
     except Exception:
         return hc.report(False, ks=ks, docs=docs, flags=flags, lines=lines)
-    exp = prog.spec_page(cmds, flags=fl)
+    exp = prog.spec_page(cmds, flags=fl, strip=strip)
     return hc.report(got == exp, ks=ks, docs=docs, flags=flags, lines=lines)
